@@ -23,7 +23,9 @@ package scripting
 
 import (
 	"bytes"
+	"context"
 	"database/sql"
+	"database/sql/driver"
 	"encoding/json"
 	"fmt"
 	"math/rand"
@@ -33,6 +35,7 @@ import (
 	"path/filepath"
 	"sort"
 	"strings"
+	"sync"
 	"syscall"
 	"testing"
 
@@ -45,7 +48,7 @@ import (
 	"github.com/tucats/ego/internal/server/tables/parsing"
 	"github.com/tucats/ego/internal/verifh"
 
-	_ "modernc.org/sqlite"
+	"modernc.org/sqlite"
 )
 
 // ---------------------------------------------------------------- database plumbing
@@ -229,6 +232,131 @@ type c17Case struct {
 	trip     string // first intended failure: "" | opErr | malformed | evalErr | condTrue | commitErr | pre kinds
 	txctl    bool
 	commitOK bool
+	// the request's context: "" never cancelled | "pre" cancelled before the handler is called |
+	// "poll" reported cancelled from its (ctxK+1)-th observation (Err / Done) on | "sql" cancelled
+	// from inside the engine while operation ctxK (a statement calling verif_c17_hangup()) runs
+	ctxMode string
+	ctxK    int
+}
+
+// ---------------------------------------------------------------- request contexts
+
+// c17PollCtx is a context that is alive for its first `left` observations and cancelled from
+// the next one on: whatever place of the handler looks at the request's context, and however
+// often, some k makes the cancellation become visible exactly there.
+type c17PollCtx struct {
+	context.Context
+	mu    sync.Mutex
+	left  int
+	fired bool
+	seen  int
+	done  chan struct{}
+}
+
+func c17NewPollCtx(k int) *c17PollCtx {
+	return &c17PollCtx{Context: context.Background(), left: k, done: make(chan struct{})}
+}
+
+func (c *c17PollCtx) observe() bool {
+	c.mu.Lock()
+	defer c.mu.Unlock()
+
+	c.seen++
+
+	if !c.fired {
+		if c.left > 0 {
+			c.left--
+		} else {
+			c.fired = true
+
+			close(c.done)
+		}
+	}
+
+	return c.fired
+}
+
+func (c *c17PollCtx) Done() <-chan struct{} { c.observe(); return c.done }
+
+func (c *c17PollCtx) Err() error {
+	if c.observe() {
+		return context.Canceled
+	}
+
+	return nil
+}
+
+// verif_c17_hangup() is an SQL function: a statement that evaluates it makes the client of the
+// request being served go away (cancels the request's context) at that very point of the script.
+var (
+	c17HangUpOnce sync.Once
+	c17HangUpLock sync.Mutex
+	c17HangUp     func()
+)
+
+func c17RegisterHangUp() {
+	c17HangUpOnce.Do(func() {
+		sqlite.MustRegisterScalarFunction("verif_c17_hangup", 0, func(_ *sqlite.FunctionContext, _ []driver.Value) (driver.Value, error) {
+			c17HangUpLock.Lock()
+			defer c17HangUpLock.Unlock()
+
+			if c17HangUp != nil {
+				c17HangUp()
+			}
+
+			return int64(1), nil
+		})
+	})
+}
+
+// c17Context builds the context the request is posted with; `finish` releases it afterwards and
+// tells whether it was cancelled while (or before) the handler ran.
+func c17Context(c *c17Case) (ctx context.Context, finish func() bool) {
+	switch c.ctxMode {
+	case "pre":
+		cctx, cancel := context.WithCancel(context.Background())
+		cancel()
+
+		return cctx, func() bool { return true }
+	case "poll":
+		p := c17NewPollCtx(c.ctxK)
+
+		return p, func() bool { p.mu.Lock(); defer p.mu.Unlock(); return p.fired }
+	case "sql":
+		cctx, cancel := context.WithCancel(context.Background())
+
+		c17HangUpLock.Lock()
+		c17HangUp = cancel
+		c17HangUpLock.Unlock()
+
+		return cctx, func() bool {
+			c17HangUpLock.Lock()
+			c17HangUp = nil
+			c17HangUpLock.Unlock()
+
+			fired := cctx.Err() != nil
+
+			cancel()
+
+			return fired
+		}
+	}
+
+	return context.Background(), func() bool { return false }
+}
+
+// c17CancelToken: the index of the operation before which the cancellation is (first) visible.
+func (c *c17Case) cancelToken() string {
+	switch c.ctxMode {
+	case "pre":
+		return " x0"
+	case "poll":
+		return fmt.Sprintf(" x%d", c.ctxK)
+	case "sql":
+		return fmt.Sprintf(" x%d", c.ctxK+1)
+	}
+
+	return ""
 }
 
 type c17Gen struct {
@@ -242,6 +370,7 @@ type c17Gen struct {
 	fkBad   bool           // a deferred foreign-key violation has been planted
 	txctl   bool           // the request contains raw transaction control: keep operations independent
 	big     bool
+	readOps bool // only the "reading" opcodes select / readrows / symbols (whose statements may write all the same)
 }
 
 func (g *c17Gen) nextFresh() int { g.fresh++; return 1000 + g.fresh }
@@ -283,7 +412,12 @@ func (g *c17Gen) okTask() c17Task {
 	r := g.r
 
 	for {
-		switch r.Intn(17) {
+		k := r.Intn(20)
+		if g.readOps {
+			k = []int{10, 11, 12, 17, 17, 18}[r.Intn(6)]
+		}
+
+		switch k {
 		case 0, 1, 2: // insert a fresh row into t
 			id := g.nextFresh()
 			v := fmt.Sprintf("v%d", id)
@@ -425,12 +559,121 @@ func (g *c17Gen) okTask() c17Task {
 			}
 
 			return c17Task{op: defs.TXOperation{Opcode: "delete", Table: "u", Filters: []string{`EQ(k,"nokey")`}}, kind: 'p', ok: true, locks: true, what: "delete none"}
+		case 17, 18: // a data-modifying statement that returns rows, sent through the READING opcode
+			if t, ok := g.returningTask("readrows"); ok {
+				return t
+			}
+		case 19: // … and through the sql opcode
+			if t, ok := g.returningTask([]string{"sql", ""}[r.Intn(2)]); ok {
+				return t
+			}
 		default: // two statements in one sql operation
 			a, b := g.nextFresh(), g.nextFresh()
 			q := fmt.Sprintf(`INSERT INTO u (k, w) VALUES ('m%d', 1); INSERT INTO u (k, w) VALUES ('m%d', 2)`, a, b)
 
 			return c17Task{op: defs.TXOperation{Opcode: "sql", SQL: q}, kind: 'p', ok: true, writes: true, locks: true, what: "sql two statements", shadow: []string{q}, args: [][]any{nil}}
 		}
+	}
+}
+
+// returningTask: INSERT / UPDATE / DELETE … RETURNING.  `readrows` (and `sql`) take raw SQL text; a
+// statement that returns rows is not necessarily a SELECT.  The reference runs the same statement
+// without its RETURNING clause.
+func (g *c17Gen) returningTask(opcode string) (c17Task, bool) {
+	r := g.r
+	mk := func(what, base, shadow, ret string, writes bool) (c17Task, bool) {
+		op := defs.TXOperation{Opcode: opcode, SQL: base + " " + ret, EmptyError: writes && r.Intn(2) == 0}
+		t := c17Task{op: op, kind: 'p', ok: true, writes: writes, locks: true, what: opcode + " " + what}
+
+		if writes {
+			t.shadow, t.args = []string{shadow}, [][]any{nil}
+		}
+
+		return t, true
+	}
+
+	switch r.Intn(8) {
+	case 0, 1:
+		id := g.nextFresh()
+		pid := 1 + r.Intn(3)
+		what := "INSERT t RETURNING"
+
+		if !g.txctl && !g.fkBad && r.Intn(14) == 0 {
+			pid = 99 // the deferred constraint fails at COMMIT
+			g.fkBad = true
+			what = "INSERT t RETURNING (deferred FK violation)"
+		}
+
+		g.insT = append(g.insT, id)
+		q := fmt.Sprintf(`INSERT INTO t (id, v, n, pid) VALUES (%d, 'ret', 1, %d)`, id, pid)
+
+		return mk(what, q, q, []string{"RETURNING id", "returning id, v, n", "RETURNING *"}[r.Intn(3)], true)
+	case 2:
+		k, ok := g.pick(g.usedU)
+		if !ok {
+			return c17Task{}, false
+		}
+
+		q := fmt.Sprintf(`UPDATE u SET w = w + 100 WHERE k = 'k%d'`, k)
+
+		return mk("UPDATE u RETURNING", q, q, "RETURNING k, w", true)
+	case 3:
+		k, ok := g.pick(g.usedU)
+		if !ok {
+			return c17Task{}, false
+		}
+
+		q := fmt.Sprintf(`DELETE FROM u WHERE k = 'k%d'`, k)
+
+		return mk("DELETE u RETURNING", q, q, "RETURNING k", true)
+	case 4:
+		id, ok := g.pick(g.usedT)
+		if !ok {
+			return c17Task{}, false
+		}
+
+		q := fmt.Sprintf(`DELETE FROM t WHERE id = %d`, id)
+
+		return mk("DELETE t RETURNING", q, q, "RETURNING id, v", true)
+	case 5: // symbol substitution inside the statement
+		id := g.nextFresh()
+		w, ok := g.dict["word"]
+
+		if !ok {
+			q := fmt.Sprintf(`INSERT INTO u (k, w) VALUES ('r%d', 7)`, id)
+
+			return mk("INSERT u RETURNING", q, q, "RETURNING k", true)
+		}
+
+		return mk("INSERT u RETURNING ({{word}})", fmt.Sprintf(`INSERT INTO u (k, w) VALUES ('{{word}}-%d', 7)`, id),
+			fmt.Sprintf(`INSERT INTO u (k, w) VALUES ('%v-%d', 7)`, w, id), "RETURNING k", true)
+	case 6: // several rows written and returned by one statement
+		a, b := g.nextFresh(), g.nextFresh()
+		q := fmt.Sprintf(`INSERT INTO u (k, w) VALUES ('m%d', 1), ('m%d', 2)`, a, b)
+
+		return mk("INSERT u two rows RETURNING", q, q, "RETURNING k, w", true)
+	default: // matches nothing: no row written, none returned
+		return mk("UPDATE none RETURNING", `UPDATE t SET v = 'nobody' WHERE id = 987654`, "", "RETURNING id", false)
+	}
+}
+
+// hangUpTask: an operation during which the client goes away (see verif_c17_hangup).
+func (g *c17Gen) hangUpTask() c17Task {
+	switch g.r.Intn(4) {
+	case 0:
+		return c17Task{op: defs.TXOperation{Opcode: "sql", SQL: "select verif_c17_hangup() as gone"}, kind: 'p', ok: true, what: "hang-up in sql select"}
+	case 1:
+		return c17Task{op: defs.TXOperation{Opcode: "readrows", SQL: "select verif_c17_hangup() as gone, id from p"}, kind: 'p', ok: true, what: "hang-up in readrows"}
+	case 2:
+		id := g.nextFresh()
+
+		return c17Task{op: defs.TXOperation{Opcode: "sql", SQL: fmt.Sprintf(`INSERT INTO u (k, w) VALUES ('hang%d', verif_c17_hangup())`, id)}, kind: 'p', ok: true, writes: true, locks: true, what: "hang-up in sql insert",
+			shadow: []string{fmt.Sprintf(`INSERT INTO u (k, w) VALUES ('hang%d', 1)`, id)}, args: [][]any{nil}}
+	default:
+		id := g.nextFresh()
+
+		return c17Task{op: defs.TXOperation{Opcode: "readrows", SQL: fmt.Sprintf(`INSERT INTO u (k, w) VALUES ('hang%d', verif_c17_hangup()) RETURNING k`, id)}, kind: 'p', ok: true, writes: true, locks: true, what: "hang-up in readrows insert",
+			shadow: []string{fmt.Sprintf(`INSERT INTO u (k, w) VALUES ('hang%d', 1)`, id)}, args: [][]any{nil}}
 	}
 }
 
@@ -441,13 +684,20 @@ func (g *c17Gen) errTask() c17Task {
 	// already taken; validation / prepare failures (missing table, syntax) happen before
 	engine := map[string]bool{"insert duplicate key": true, "insert duplicate of own insert": true, "insert CHECK violation": true,
 		"insert UNIQUE violation": true, "insert NOT NULL violation": true, "update none with emptyError": true,
-		"delete none with emptyError": true, "sql multi-row insert, second row duplicate": true, "sql two statements, second fails": true}
+		"delete none with emptyError": true, "sql multi-row insert, second row duplicate": true, "sql two statements, second fails": true,
+		"readrows INSERT RETURNING duplicate key": true, "readrows UPDATE RETURNING none with emptyError": true, "readrows INSERT RETURNING CHECK violation": true,
+		"readrows multi-row INSERT RETURNING, second row duplicate": true}
 	mk := func(what string, op defs.TXOperation) c17Task {
 		return c17Task{op: op, kind: 'p', ok: false, locks: engine[what], what: what}
 	}
 
 	for {
-		switch r.Intn(24) {
+		k := r.Intn(29)
+		if g.readOps {
+			k = []int{14, 15, 16, 23, 24, 25, 26, 27, 28}[r.Intn(9)]
+		}
+
+		switch k {
 		case 0:
 			id := 1 + r.Intn(c17SeedRows)
 			if g.usedT[id] {
@@ -515,8 +765,18 @@ func (g *c17Gen) errTask() c17Task {
 		case 22:
 			// first statement succeeds, second fails
 			return mk("sql two statements, second fails", defs.TXOperation{Opcode: "sql", SQL: fmt.Sprintf(`INSERT INTO p (id) VALUES (%d); INSERT INTO p (id) VALUES (1)`, g.nextFresh())})
+		case 24:
+			return mk("readrows INSERT RETURNING duplicate key", defs.TXOperation{Opcode: "readrows", SQL: `INSERT INTO p (id) VALUES (1) RETURNING id`})
+		case 25:
+			return mk("readrows UPDATE RETURNING none with emptyError", defs.TXOperation{Opcode: "readrows", SQL: `UPDATE t SET v = 'z' WHERE id = 987654 RETURNING id`, EmptyError: true})
+		case 26:
+			return mk("readrows DELETE RETURNING missing table", defs.TXOperation{Opcode: "readrows", SQL: `DELETE FROM nosuch RETURNING x`})
+		case 27:
+			return mk("readrows INSERT RETURNING CHECK violation", defs.TXOperation{Opcode: "readrows", SQL: fmt.Sprintf(`INSERT INTO u (k, w) VALUES ('neg%d', -1) RETURNING k`, g.nextFresh())})
+		case 28:
+			return mk("readrows multi-row INSERT RETURNING, second row duplicate", defs.TXOperation{Opcode: "readrows", SQL: fmt.Sprintf(`INSERT INTO p (id) VALUES (%d), (1) RETURNING id`, g.nextFresh())})
 		default:
-			if r.Intn(2) == 0 {
+			if r.Intn(2) == 0 || g.readOps {
 				return mk("symbols with table", defs.TXOperation{Opcode: "symbols", Table: "t", Data: map[string]any{"a": "b"}})
 			}
 
@@ -589,8 +849,11 @@ func (g *c17Gen) rawTx(kind byte) c17Task {
 	return c17Task{op: defs.TXOperation{Opcode: "sql", SQL: l[g.r.Intn(len(l))]}, kind: kind, ok: true, what: "raw transaction control"}
 }
 
-func c17Generate(r *rand.Rand, big bool) *c17Case {
-	g := &c17Gen{r: r, usedT: map[int]bool{}, usedU: map[int]bool{}, dropped: map[int]bool{}, dict: map[string]any{}, big: big}
+// mode: "" the general stream | "cancel" the request's context is cancelled at some operation
+// boundary | "readops" a script made only of select / readrows / symbols operations, at least
+// one of which carries a statement that writes
+func c17Generate(r *rand.Rand, big bool, mode string) *c17Case {
+	g := &c17Gen{r: r, usedT: map[int]bool{}, usedU: map[int]bool{}, dropped: map[int]bool{}, dict: map[string]any{}, big: big, readOps: mode == "readops"}
 	c := &c17Case{pre: "fine", commitOK: true, dsn: "d1",
 		session: &router.Session{ID: 1, User: "admin", Admin: true, URLParts: map[string]any{"dsn": "d1"}}}
 
@@ -601,6 +864,15 @@ func c17Generate(r *rand.Rand, big bool) *c17Case {
 
 	n := 1 + r.Intn(maxTasks)
 	plan := r.Intn(100)
+
+	// the two scenario families: no raw transaction control (its failures are a known class) and
+	// no pre-check failures; 4 in 7 requests are meant to succeed
+	forced := -1
+
+	if mode != "" {
+		plan = r.Intn(70)
+		forced = r.Intn(n)
+	}
 
 	g.txctl = plan >= 90 && plan < 96
 	c.txctl = g.txctl
@@ -635,6 +907,12 @@ func c17Generate(r *rand.Rand, big bool) *c17Case {
 			t.conds = g.noise()
 		case g.txctl && i > 0 && r.Intn(3) == 0:
 			t = g.rawTx([]byte{'c', 'r', 'r', 'b'}[r.Intn(4)])
+		case g.readOps && i == forced:
+			for ok := false; !ok || !t.writes; {
+				t, ok = g.returningTask("readrows")
+			}
+
+			t.conds = g.quietConds()
 		default:
 			t = g.okTask()
 			t.conds = g.quietConds()
@@ -658,6 +936,24 @@ func c17Generate(r *rand.Rand, big bool) *c17Case {
 	}
 
 	c.trip = failKind
+
+	switch {
+	case mode != "cancel":
+	case r.Intn(8) == 0:
+		c.ctxMode = "pre"
+	case r.Intn(2) == 0:
+		// the k-th look at the context is the first one to see it cancelled
+		c.ctxMode, c.ctxK = "poll", r.Intn(len(c.tasks)+2)
+	default:
+		// the client goes away while operation k runs
+		c.ctxMode, c.ctxK = "sql", r.Intn(len(c.tasks)+1)
+		h := g.hangUpTask()
+		saved := g.dict
+		g.dict = map[string]any{} // the symbols of later operations are not defined at position k
+		h.conds = g.quietConds()
+		g.dict = saved
+		c.tasks = append(c.tasks[:c.ctxK], append([]c17Task{h}, c.tasks[c.ctxK:]...)...)
+	}
 
 	ops := make([]defs.TXOperation, len(c.tasks))
 
@@ -828,18 +1124,28 @@ func TestVerifC17(t *testing.T) {
 
 	dsns.DSNService = svc
 
+	c17RegisterHangUp()
+
 	r := verifh.Rand(17)
+	rCancel, rRead := verifh.Rand(1701), verifh.Rand(1702) // the two scenario families have their own streams
 	n := verifh.N(700, 3000)
+	nCancel, nRead := verifh.N(70, 500), verifh.N(40, 250)
 	distinct := map[string]bool{}
 	failures := 0
+	hangUpsExpected, hangUpsFired := 0, 0
 
-	for i := 0; i < n; i++ {
+	for i := 0; i < n+nCancel+nRead; i++ {
 		var c *c17Case
 
-		if i < len(c17Corpus) {
+		switch {
+		case i < len(c17Corpus):
 			c = c17Corpus[i]()
-		} else {
-			c = c17Generate(r, verifh.Thorough() && i%3 == 0)
+		case i < n:
+			c = c17Generate(r, verifh.Thorough() && i%3 == 0, "")
+		case i < n+nCancel:
+			c = c17Generate(rCancel, verifh.Thorough() && i%3 == 0, "cancel")
+		default:
+			c = c17Generate(rRead, verifh.Thorough() && i%3 == 0, "readops")
 		}
 
 		cdir := filepath.Join(dir, fmt.Sprintf("c%d", i))
@@ -857,6 +1163,7 @@ func TestVerifC17(t *testing.T) {
 		// ---- reference: the harness' own SQL on the shadow, in one transaction
 		intendedFail := c.pre != "fine"
 		expectedAll := before
+		lastRun := -1 // index of the last operation the reference executed
 
 		if c.pre == "fine" && len(c.tasks) > 0 {
 			tx, err := sh.Begin()
@@ -872,6 +1179,7 @@ func TestVerifC17(t *testing.T) {
 				}
 
 				tripHere := !tk.ok
+				lastRun = ti
 
 				if tk.ok {
 					for k, q := range tk.shadow {
@@ -924,9 +1232,11 @@ func TestVerifC17(t *testing.T) {
 		}
 
 		// ---- the real handler
-		req, _ := http.NewRequest(http.MethodPost, "/dsns/"+c.dsn+"/@transaction", bytes.NewReader(c.body))
+		ctx, finish := c17Context(c)
+		req, _ := http.NewRequestWithContext(ctx, http.MethodPost, "/dsns/"+c.dsn+"/@transaction", bytes.NewReader(c.body))
 		rr := httptest.NewRecorder()
 		status := Handler(c.session, rr, req)
+		cancelled := finish()
 
 		fds := c17OpenFDs(file)
 		free, lockMsg, after := c17Observe(file)
@@ -988,6 +1298,8 @@ func TestVerifC17(t *testing.T) {
 			}
 		}
 
+		in.WriteString(c.cancelToken())
+
 		impl := fmt.Sprintf("%s %s %s %s", map[bool]string{true: "ok", false: "fail"}[ok2xx], applied,
 			map[bool]string{true: "free", false: "locked"}[free], map[bool]string{true: "closed", false: "leaked"}[fds == 0])
 		cases.Write(verifh.Case{In: in.String(), Impl: impl, Desc: string(c.body)})
@@ -998,6 +1310,47 @@ func TestVerifC17(t *testing.T) {
 
 		if c.txctl {
 			stats.Inc("with_raw_tx_control")
+		}
+
+		if c.ctxMode != "" {
+			stats.Inc("ctx_" + c.ctxMode)
+
+			if cancelled {
+				stats.Inc("ctx_cancelled_during_request")
+			}
+
+			if c.ctxMode == "sql" && lastRun >= c.ctxK {
+				hangUpsExpected++
+			}
+
+			if c.ctxMode == "sql" && cancelled {
+				hangUpsFired++
+			}
+
+			if nWrites >= 1 && !intendedFail && (c.ctxMode == "pre" || c.ctxK > 0) {
+				stats.Inc("ctx_cancel_in_request_that_writes_and_should_commit")
+			}
+		}
+
+		readOnlyOpcodes, returningWrites := len(c.tasks) > 0, 0
+
+		for _, tk := range c.tasks {
+			oc := strings.ToLower(tk.op.Opcode)
+			if oc != "select" && oc != "readrows" && oc != "symbols" {
+				readOnlyOpcodes = false
+			}
+
+			if oc == "readrows" && tk.writes {
+				returningWrites++
+			}
+		}
+
+		if returningWrites > 0 {
+			stats.Inc("with_readrows_statement_that_writes")
+
+			if readOnlyOpcodes {
+				stats.Inc("reading_opcodes_only_but_writes")
+			}
 		}
 
 		if ok2xx {
@@ -1023,13 +1376,28 @@ func TestVerifC17(t *testing.T) {
 			class = "evalerr-exit"
 		case c.trip == "commitErr":
 			class = "commit-exit"
+		case c.ctxMode != "":
+			class = "ctx-cancel"
+		case readOnlyOpcodes && returningWrites > 0:
+			class = "readops-write"
+		}
+
+		ctxDesc := ""
+
+		switch c.ctxMode {
+		case "pre":
+			ctxDesc = " ctx=cancelled-before-the-request"
+		case "poll":
+			ctxDesc = fmt.Sprintf(" ctx=reported-cancelled-from-observation-%d-on(observed %s)", c.ctxK+1, map[bool]string{true: "cancelled", false: "alive only"}[cancelled])
+		case "sql":
+			ctxDesc = fmt.Sprintf(" ctx=cancelled-by-verif_c17_hangup()-during-operation-%d", c.ctxK+1)
 		}
 
 		report := func(what, got, want string) {
 			failures++
 
 			if failures <= 200 {
-				fails.Write(verifh.Failure{Class: class, What: what, Input: fmt.Sprintf("POST /dsns/%s/@transaction admin=%v body=%s", c.dsn, c.session.Admin, c.body), Got: got, Want: want})
+				fails.Write(verifh.Failure{Class: class, What: what, Input: fmt.Sprintf("POST /dsns/%s/@transaction admin=%v%s body=%s", c.dsn, c.session.Admin, ctxDesc, c.body), Got: got, Want: want})
 			}
 
 			stats.Inc("oracle_fail_" + class)
@@ -1049,6 +1417,10 @@ func TestVerifC17(t *testing.T) {
 			report("request reports success but the tables differ from the reference result of applying every operation", after, expectedAll)
 		case !ok2xx && after != before:
 			report(fmt.Sprintf("request reports failure (status %d) but the tables changed", status), after, before)
+		case !ok2xx && !intendedFail && !c.txctl && c.ctxMode != "":
+			// a request whose context is cancelled may give up — all or nothing still holds (checked
+			// above: failure reported and nothing changed; below: nothing stays open)
+			stats.Inc("ctx_cancel_honoured")
 		case !ok2xx && !intendedFail && !c.txctl:
 			report("request fails although every operation, condition and the commit are meant to succeed",
 				fmt.Sprintf("status %d body %.300s", status, rr.Body.String()), "2xx")
@@ -1067,6 +1439,12 @@ func TestVerifC17(t *testing.T) {
 	}
 
 	stats.Add("oracle_failures", failures)
+	stats.Add("hangups_expected", hangUpsExpected)
+	stats.Add("hangups_fired", hangUpsFired)
+
+	if hangUpsExpected > 0 && hangUpsFired == 0 {
+		t.Errorf("harness: verif_c17_hangup() never fired in %d requests that reach it", hangUpsExpected)
+	}
 }
 
 // ---------------------------------------------------------------- fixed corpus (runs first)
@@ -1122,4 +1500,35 @@ var c17Corpus = []func() *c17Case{
 	c17Fixed(true, "", c17Ins(2015, 1), c17Raw('c', "COMMIT"), c17Raw('b', "BEGIN"), c17Ins(2016, 1)),
 	c17Fixed(true, "opErr", c17Raw('r', "ROLLBACK"), c17Task{op: defs.TXOperation{Opcode: "drop", Table: "nosuch"}, kind: 'p'}),
 	c17Fixed(true, "", c17Ins(2017, 1), c17Raw('b', "BEGIN")),
+	// the client is gone before / between / during the operations of a request that writes
+	c17Ctx("pre", 0, c17Fixed(false, "", c17Ins(2018, 1), c17Ins(2019, 2))),
+	c17Ctx("poll", 0, c17Fixed(false, "", c17Ins(2020, 1))),
+	c17Ctx("poll", 1, c17Fixed(false, "", c17Ins(2021, 1), c17Ins(2022, 2))),
+	c17Ctx("poll", 2, c17Fixed(false, "", c17Ins(2023, 1), c17Ins(2024, 2), c17Ins(2025, 3))),
+	c17Ctx("sql", 1, c17Fixed(false, "", c17Ins(2026, 1), c17Task{op: defs.TXOperation{Opcode: "sql", SQL: "select verif_c17_hangup() as gone"}, kind: 'p', ok: true}, c17Ins(2027, 2))),
+	c17Ctx("sql", 0, c17Fixed(false, "opErr", c17Task{op: defs.TXOperation{Opcode: "sql", SQL: "INSERT INTO u (k, w) VALUES ('hang', verif_c17_hangup())"}, kind: 'p', ok: true, writes: true, locks: true,
+		shadow: []string{"INSERT INTO u (k, w) VALUES ('hang', 1)"}, args: [][]any{nil}}, c17Task{op: defs.TXOperation{Opcode: "drop", Table: "nosuch"}, kind: 'p'})),
+	// scripts made of reading opcodes only, whose readrows statement writes
+	c17Fixed(false, "", c17Returning(`INSERT INTO t (id, v, n, pid) VALUES (2030, 'ret', 1, 1)`, "RETURNING id")),
+	c17Fixed(false, "", c17Task{op: defs.TXOperation{Opcode: "symbols", Data: map[string]any{"who": "k3"}}, kind: 'p', ok: true},
+		c17Task{op: defs.TXOperation{Opcode: "select", Table: "p", Filters: []string{"EQ(id,2)"}, Columns: []string{"id"}}, kind: 'p', ok: true},
+		c17Task{op: defs.TXOperation{Opcode: "readrows", SQL: `DELETE FROM u WHERE k = '{{who}}' RETURNING k, w`}, kind: 'p', ok: true, writes: true, locks: true,
+			shadow: []string{`DELETE FROM u WHERE k = 'k3'`}, args: [][]any{nil}}),
+	c17Fixed(false, "", c17Returning(`UPDATE t SET n = n + 1 WHERE id <= 3`, "RETURNING id, n"), c17Task{op: defs.TXOperation{Opcode: "readrows", Table: "p"}, kind: 'p', ok: true}),
+	c17Fixed(false, "", c17Returning(`INSERT INTO t (id, v, n, pid) VALUES (2031, 'ret', 1, 99)`, "RETURNING id")), // COMMIT fails
+	c17Fixed(false, "condTrue", c17Returning(`DELETE FROM t WHERE id = 5`, "RETURNING id", c17Cond{text: "EQ(_rows_,1)", letter: 't', status: 409})),
+}
+
+func c17Returning(base, ret string, conds ...c17Cond) c17Task {
+	return c17Task{op: defs.TXOperation{Opcode: "readrows", SQL: base + " " + ret}, kind: 'p', ok: true, writes: true, locks: true,
+		shadow: []string{base}, args: [][]any{nil}, conds: conds}
+}
+
+func c17Ctx(mode string, k int, f func() *c17Case) func() *c17Case {
+	return func() *c17Case {
+		c := f()
+		c.ctxMode, c.ctxK = mode, k
+
+		return c
+	}
 }
